@@ -6,12 +6,12 @@ package world
 
 import (
 	"bytes"
-	"runtime/debug"
-	"strings"
 	"container/heap"
 	"errors"
 	"fmt"
+	"runtime/debug"
 	"sort"
+	"strings"
 	"time"
 
 	"go.sia.tech/core/consensus"
@@ -72,28 +72,28 @@ type World struct {
 	step  int
 	fatal bool // a violation made the run meaningless; stop
 
-	nodes   []*Node
-	miners  []*Miner
-	wallets []*Wallet
-	lights  []*Light
+	nodes     []*Node
+	miners    []*Miner
+	wallets   []*Wallet
+	lights    []*Light
 	contracts []*Contract
 
-	ledgers map[types.BlockID]*ref.Ledger
+	ledgers   map[types.BlockID]*ref.Ledger
 	badLedger map[types.BlockID]bool
 
 	partition []int // group per node; all equal = no partition
 	quiet     bool  // no more faults
 
-	mined    int
-	maxReorg int
-	viols    []sim.Violation
-	harness  string
-	reach    map[string]bool
+	mined      int
+	maxReorg   int
+	viols      []sim.Violation
+	harness    string
+	reach      map[string]bool
 	nontrivial bool
-	samples  []string
+	samples    []string
 
-	adv *Adversary
-	seenIDs map[types.Hash256]string // C12: every derived ID ever seen -> kind
+	adv          *Adversary
+	seenIDs      map[types.Hash256]string // C12: every derived ID ever seen -> kind
 	stateByBlock map[types.BlockID]string
 }
 
